@@ -21,6 +21,7 @@
 From AV Require Import Base.Bytes Base.Outcome Hash.HashModel Tree.Heap Tree.Ops Tree.Script.
 From AV Require Import Tree.Index Tree.IndexProofs Tree.Refs Tree.RefsProofsReport Tree.RefsProofsOps Tree.IndexProofsTiny.
 From AV Require Import Tree.Inv Spec.SpecReal Tree.CheckFn Tree.IndexProofsClosed Tree.IndexProofsTinyMove.
+From AV Require Import Tree.RefsAll Tree.IndexProofsNodeInv Tree.IndexProofsAll.
 Import Tiny.
 Open Scope list_scope.
 Open Scope N_scope.
@@ -121,6 +122,47 @@ Theorem C05_history_x_real :
   run_ops RT tab_el tab_en (check_fn_model dfas) LATEST root_attrs l empty_world = Val w' ->
   TreeFacts w' /\ Inv04 RT (check_fn_model dfas) w' /\ Inv05 RT w'.
 Proof. exact C04_C05_history_x_rt. Qed.
+
+(* ---------- all 26 constructors (no pending constructor): see Properties/C04.v for the classes Known04a / Known05a and RX *)
+Theorem C05_inv :
+  forall (T : tables) (tab_el tab_en : nametab) (check_fn : N -> list N -> res bool) (LATEST : N)
+         (root_attrs : list (N * cdata)),
+  TablesOK T check_fn ->
+  forall (w : world) (o : op) (r : out value) (w' : world),
+  TreeFacts w -> Inv04 T check_fn w -> Inv05 T w -> RX T w ->
+  Known04a T LATEST w o = false -> Known05a T tab_el tab_en check_fn LATEST root_attrs w o = false ->
+  run_op T tab_el tab_en check_fn LATEST root_attrs o w = Val (r, w') -> Inv05 T w'.
+Proof. exact C05_inv_all. Qed.
+
+Theorem C45_history_all :
+  forall (T : tables) (tab_el tab_en : nametab) (check_fn : N -> list N -> res bool) (LATEST : N)
+         (root_attrs : list (N * cdata)),
+  TablesOK T check_fn ->
+  (forall ty, et_new T (autosar_element T) = Val ty -> plainty T ty) ->
+  forall (l : list op) (w w' : world),
+  Inv04 T check_fn w -> Inv05 T w -> RX T w ->
+  steps_ok_all T tab_el tab_en check_fn LATEST root_attrs l w ->
+  run_hist T tab_el tab_en check_fn LATEST root_attrs l w = Val w' -> Inv04 T check_fn w' /\ Inv05 T w' /\ RX T w'.
+Proof. exact IndexProofsAll.C45_history_all. Qed.
+
+Theorem C05_history_all :
+  forall (T : tables) (tab_el tab_en : nametab) (check_fn : N -> list N -> res bool) (LATEST : N)
+         (root_attrs : list (N * cdata)),
+  TablesOK T check_fn ->
+  (forall ty, et_new T (autosar_element T) = Val ty -> plainty T ty) ->
+  forall (l : list op) (w' : world),
+  clean45a T tab_el tab_en check_fn LATEST root_attrs l empty_world = true ->
+  run_ops T tab_el tab_en check_fn LATEST root_attrs l empty_world = Val w' ->
+  TreeFacts w' /\ Inv04 T check_fn w' /\ Inv05 T w'.
+Proof. exact C04_C05_history_all. Qed.
+
+Theorem C05_history_all_real :
+  forall (dfas : N -> option (list (list N) * list N)) (tab_el tab_en : nametab) (LATEST : N) (root_attrs : list (N * cdata))
+         (l : list op) (w' : world),
+  clean45a RT tab_el tab_en (check_fn_model dfas) LATEST root_attrs l empty_world = true ->
+  run_ops RT tab_el tab_en (check_fn_model dfas) LATEST root_attrs l empty_world = Val w' ->
+  TreeFacts w' /\ Inv04 RT (check_fn_model dfas) w' /\ Inv05 RT w'.
+Proof. exact C04_C05_history_all_rt. Qed.
 
 Theorem C05_report :
   forall (T : tables) (check_fn : N -> list N -> res bool) (w : world) (m : N) (r : out (list id)) (w' : world),
